@@ -9,11 +9,11 @@
    WaitGroup wait).  The caller context never expires and Close is given a context that does
    not expire (the property speaks of Close returning nil).
 
-   FixF4 = FALSE is the code as it is: Submit reads `closed` WITHOUT an admission lock and later
-   selects on `queue <- task` and `<-stop`; when Close ran in between both cases are ready and
-   Go picks one at random (finding F4).  FixF4 = TRUE is the candidate repair (the
-   admissionMu pattern of BoundedBatchPool: re-check `closed` and enqueue under a read lock,
-   Close sets closed + close(stop) under the write lock). *)
+   FixF4 = TRUE is the code as it is now (/repo commit 3996f0eab: the admissionMu pattern of
+   BoundedBatchPool - re-check `closed` and enqueue under a read lock, Close sets closed +
+   close(stop) under the write lock).  FixF4 = FALSE is the code before the fix: Submit read
+   `closed` WITHOUT an admission lock and later selected on `queue <- task` and `<-stop`; when Close
+   ran in between both cases were ready and Go picks one at random (finding F4, MC_f4.cfg). *)
 EXTENDS WorkQueue, TLC
 
 CONSTANTS NP,         \* number of producers
